@@ -24,7 +24,9 @@ AddWit(w, sigs, c) == w \cup {[sig |-> s, case |-> c] : s \in {x \in sigs : ~\E 
 
 Judge(e) ==
   \* a construction is named by its entry point and classified by its arguments (there is no table before it)
-  LET name == IF e.op.op = "Create" THEN "Create:" \o e.op.via ELSE e.op.op
+  \* a formatting call is named by the call itself
+  LET name == IF e.op.op = "Create" THEN "Create:" \o e.op.via
+              ELSE IF e.op.op \in {"CellFmt", "TblFmt"} /\ "f" \in DOMAIN e.op THEN e.op.f ELSE e.op.op
       sh == IF e.op.op = "Create" THEN CreateClass(e.op) ELSE ShapeClass(e.b)
   IN  {<<"C09", name, sh, f>> : f \in Viol_Step(e.b, e.op, e.ret, e.a)}
       \cup (IF name = "ReadAll" /\ e.ret # "panic" THEN
